@@ -375,9 +375,14 @@ class Check:
 
     # -- finish
     def finish(self):
+        self.floor_broken = []
         for rid, r in self.rules.items():
             if r["instances"] < r["floor"]:
-                self.broken.append("rule %s matched %d instances, below its floor %d (confirmed by hand on the pinned tree)" % (rid, r["instances"], r["floor"]))
+                self.floor_broken.append("rule %s matched %d instances, below its floor %d (confirmed by hand on the pinned tree)" % (rid, r["instances"], r["floor"]))
+        # a floor that is not met makes a *pass* meaningless (vacuous rule); a concrete violation found by another
+        # instance is still a finding, so floors only turn an otherwise clean run into "analysis broken"
+        if not self.violations:
+            self.broken += self.floor_broken
         wall = time.time() - self.t0
         evaluations = sum(r["instances"] for r in self.rules.values())
         nontrivial = sum(r["nontrivial"] for r in self.rules.values())
@@ -396,7 +401,7 @@ class Check:
             units_parsed=sorted(self.units),
             known_findings_present=[h["key"] for h in self.known_hits],
             information=self.infos[:60],
-            analysis_broken=self.broken,
+            analysis_broken=self.broken + [b for b in self.floor_broken if b not in self.broken],
             exhaustive=True,
         )
         cov.update(self.extra)
